@@ -73,27 +73,28 @@ def _check_main(run, P):
     from .c01 import _alias
     C = P.cls(c04.EC)
     _alias(run, "C04.post", "C10.consumers", lambda: c04._post(run, P, C))
+    _alias(run, "C04.post", "C10.consumers", lambda: c04._skipsets(run, P, C))
     _alias(run, "C04.front", "C10.consumers", lambda: c04._front(run, P, C))
     _alias(run, "C04.reset", "C10.consumers", lambda: c04._reset(run, P, C))
     for src_rule in ("C04.mark", "C04.dispatch", "C05.topo", "C05.wrap"):
         run.rule_docs[src_rule] = ""
         run.minimum[src_rule] = 0
     n0 = len(run.obs)
-    c04._mark(run, P, C)
-    c05._topo_wrap(run, P)
+    run.do(c04._mark, run, P, C)
+    run.do(c05._topo_wrap, run, P)
     for o in run.obs[n0:]:
         o.rule = "C10.consumers"
     for src_rule in ("C04.mark", "C04.dispatch", "C05.topo", "C05.wrap"):
         del run.rule_docs[src_rule]
         del run.minimum[src_rule]
-    _scope(run, P)
+    run.do(_scope, run, P)
     calls(run, P, "C10.calls")
-    _raise(run, P)
-    _cycle(run, P)
-    _edges_kept(run, P)
-    _messages(run, P)
+    run.do(_raise, run, P)
+    run.do(_cycle, run, P)
+    run.do(_edges_kept, run, P)
+    run.do(_messages, run, P)
     flag(run, P, "C10.flag")
-    _switch(run, P)
+    run.do(_switch, run, P)
 
 
 def _scope(run, P):
